@@ -100,6 +100,9 @@ class Harness:
         self.functions |= ex.functions_executed
         if ex.stats.unknown:
             self.inconclusive.append("%s: %d solver answers were unknown" % (name, ex.stats.unknown))
+        if st.get("panic_paths"):
+            # a harness that lets a panic of the real code escape must not pass silently
+            self.inconclusive.append("%s: %d paths ended in a panic of the real code that the harness did not report" % (name, st["panic_paths"]))
         if not ex.exhausted:
             self.inconclusive.append("%s: exploration stopped before the frontier was empty" % name)
 
@@ -114,6 +117,8 @@ class Harness:
             self.inconclusive.append("%s: worker error: %s" % (name, m.errors[0][-600:]))
         if m.stats.get("unknown"):
             self.inconclusive.append("%s: %d solver answers were unknown" % (name, m.stats["unknown"]))
+        if m.stats.get("panic_paths"):
+            self.inconclusive.append("%s: %d paths ended in a panic of the real code that the harness did not report" % (name, m.stats["panic_paths"]))
         if not m.exhausted and not m.errors:
             self.inconclusive.append("%s: exploration stopped before the frontier was empty" % name)
         for s in m.samples:
